@@ -10,6 +10,7 @@ import Vivid.Engine.Future
 import Vivid.Engine.Framing
 import Vivid.Engine.SendLoop
 import Vivid.Engine.Transparency
+import Vivid.Engine.Gossip
 
 open Vivid.Engine
 
@@ -24,7 +25,8 @@ def engines : List (String × Engine) := [
   ("future", FutureEngine.engine),
   ("framing", FramingEngine.engine),
   ("sendloop", SendLoopEngine.engine),
-  ("transp", TranspEngine.engine)
+  ("transp", TranspEngine.engine),
+  ("gossip", GossipEngine.engine)
 ]
 
 partial def loop (h : IO.FS.Stream) (out : IO.FS.Stream) (e : Engine) (s : e.σ) : IO Unit := do
